@@ -1,4 +1,7 @@
-import GeoVerif.Proofs.DMS
+import GeoVerif.Proofs.DMSClosure
+import GeoVerif.Proofs.DMSNul
+import GeoVerif.Proofs.DMSStrVal
+import GeoVerif.Proofs.DMSRoundTrip
 /-!
 # C10 — text formatting and parsing of angles and positions: property theorems
 
@@ -7,8 +10,11 @@ All statements are about the definitions the driver executes (`Model/DMS.lean`) 
 of an enum value or of the model makes them fail.  Byte strings are `List Nat`, all theorems hold for every `Nat`
 (so in particular for every byte, NUL and high-bit bytes included).
 
-Not theorems (oracle / exact per-sample check only, see `tools/props.d/C10.py`): the half-unit round-trip bound
-(`roundtrip_bound` of DESIGN §5 needs `RoundSpec round53`), the shape of `%.*f` output for arbitrary values.
+Closure of the formatter into the parser (`encode_in_grammar`, `grammar_all`, `decode_encode`), the full NUL statement
+(`decode_nul_rejected`), sums of signed pieces (`decode_sum`) and the round-trip bounds (`encode_value_bound`,
+`roundtrip_bound`, `str_val_roundtrip`) are theorems about the same executable definitions; the helper lemmas live in
+`Proofs/DMSDigits.lean`, `DMSGrammar.lean`, `DMSEncode.lean`, `DMSPlain.lean`, `DMSClosure.lean`, `DMSNul.lean`,
+`DMSStrVal.lean`, `DMSRound.lean`.  What is not proved is listed in `tools/props.d/C10.py`.
 -/
 namespace GeoVerif.Props.C10
 open GeoVerif GeoVerif.DMS GeoVerif.DMSProofs GeoVerif.Gen GeoVerif.Decimal
@@ -215,9 +221,7 @@ theorem comps_missing_number (f npiece : Nat) (sl : Slots) (s rest : Bytes) (n :
 
 /-! ### the encoder's field layouts are parsed into exactly their numbers (closure of formatter into parser, field level) -/
 
-def numOf (ds : Bytes) : Num := { int := digitsVal 0 ds, nint := ds.length }
-def numFracOf (ds fs : Bytes) : Num :=
-  { int := digitsVal 0 ds, nint := ds.length, point := true, frac := digitsVal 0 fs, nfrac := fs.length }
+-- `numOf ds`, `numFracOf ds fs` (`Proofs/DMSGrammar.lean`): the `Num` records of the texts `ds` and `ds.fs`
 
 /-- `D d M ' S . F "` (every digit string `D M S F`, `D M S` non-empty): degrees, minutes and seconds-with-fraction -/
 theorem grammar_dms (D M S F : Bytes) (hD : AllDigits D) (hM : AllDigits M) (hS : AllDigits S) (hF : AllDigits F)
@@ -301,6 +305,79 @@ example : comps 4 0 {} (strBytes "20d30'40.5\"") =
 example : comps 4 0 {} (strBytes "1:2:3:4:5") = .error "More than 3 DMS components" := by decide
 example : comps 4 0 {} [49, 0, 50] = .error "Illegal character" := by decide
 
+
+/-! ## closure of the formatter into the parser (all finite angles, all precisions, all flags) -/
+
+/-- **`encode_in_grammar`: every output of `Encode` for a finite angle is a text of the grammar that the parser accepts.**
+    For every finite binary64 `±m·2^e`, trailing component `t ∈ {DEGREE, MINUTE, SECOND}`, every requested precision `p`
+    (clamped to `clampPrec t p`), every flag `NONE / LATITUDE / LONGITUDE / AZIMUTH` and every separator byte `sep`
+    (0 = indicators `d ' "`): the output is `[-] D [d M [' S]] [.F] [' | "] [S|N|W|E]` — `dmsText` — with non-empty
+    digit strings `D M S` (only the bytes `0…9`; leading zeros from the zero fill included), exactly `clampPrec t p`
+    fraction digits `F` and a point iff that number is positive, the sign only without a flag, the hemisphere letter only
+    for LATITUDE / LONGITUDE and chosen by the sign; the digit strings denote the numbers `encFields` (degrees including the
+    carry, minutes, seconds, fraction units).  For the two separators `Decode` understands (none, `:`) the component loop
+    parses that text into exactly those three numbers (`slotsOf`). -/
+theorem encode_in_grammar (s : Bool) (m : Nat) (e : Int) (t p : Nat) (ind : Flag) (sep : Nat) (ht : t ≤ 2) :
+    let h := encodeHead (.fin s m e) t p ind
+    ∃ D M S F : Bytes, AllDigits D ∧ AllDigits M ∧ AllDigits S ∧ AllDigits F ∧ D ≠ [] ∧ M ≠ [] ∧ S ≠ [] ∧
+      F.length = clampPrec t p ∧
+      digitsVal 0 D = (encFields h t).1 ∧ digitsVal 0 M = (encFields h t).2.1 ∧ digitsVal 0 S = (encFields h t).2.2.1 ∧
+      digitsVal 0 F = (encFields h t).2.2.2 ∧
+      encode (.fin s m e) t p ind sep = sgnText ind h.neg ++ dmsText t sep D M S F ++ hemiText ind h.neg ∧
+      (sep = 0 ∨ sep = 58 → comps 4 0 {} (dmsText t sep D M S F) = .ok (slotsOf t D M S F)) := by
+  intro h
+  obtain ⟨D, M, S, F, hD, hM, hS, hF, nD, nM, nS, hl, v1, v2, v3, v4, henc⟩ := encode_shape s m e t p ind sep ht
+  exact ⟨D, M, S, F, hD, hM, hS, hF, nD, nM, nS, hl, v1, v2, v3, v4, henc,
+    fun hsep => grammar_text t sep D M S F ht hsep hD hM hS hF nD nM nS⟩
+
+/-- the general grammar theorem behind it: every `dmsText` (indicator or `:` style, with or without fraction, trailing
+    degrees / minutes / seconds) is parsed into exactly its numbers -/
+theorem grammar_all (t sep : Nat) (D M S F : Bytes) (ht : t ≤ 2) (hsep : sep = 0 ∨ sep = 58)
+    (hD : AllDigits D) (hM : AllDigits M) (hS : AllDigits S) (hF : AllDigits F) (nD : D ≠ []) (nM : M ≠ []) (nS : S ≠ []) :
+    comps 4 0 {} (dmsText t sep D M S F) = .ok (slotsOf t D M S F) :=
+  grammar_text t sep D M S F ht hsep hD hM hS hF nD nM nS
+
+/-- `%.*f` (`Utility::str` on a finite number) writes only digits, at most one point, exactly `p` decimals -/
+theorem fmtFixed_shape (x : F64) (p : Nat) :
+    ∃ I F : Bytes, fmtFixed x p = (if x.signbit then [45] else []) ++ I ++ (if p = 0 then [] else 46 :: F) ∧
+      AllDigits I ∧ I ≠ [] ∧ AllDigits F ∧ F.length = p ∧
+      digitsVal 0 I = fixedUnits x p / 10 ^ p ∧ digitsVal 0 F = fixedUnits x p % 10 ^ p := by
+  obtain ⟨I, F, h, r⟩ := unitsToFixed_shape (fixedUnits x p) p
+  exact ⟨I, F, by simp only [fmtFixed, h, List.append_assoc], r⟩
+
+/-- **`decode_encode` (discrete part, all finite angles)**: `Decode (Encode x …)` — through the whole byte pipeline
+    `replaceAll`, `trim`, `pieces`, `strip`, `comps` — is the numeric stage `evalSlots` applied to the printed fields
+    (`D M S F` of `encode_in_grammar`, values `encFields`), added to `-0`, with the sign the encoder wrote (`readNeg`:
+    the sign of the angle, none for AZIMUTH) and the flag of the hemisphere class (`readFlag`: LATITUDE for `N/S`,
+    LONGITUDE for `E/W`, NONE otherwise).  The numeric stage is total on these fields for `|x| < 2^40`
+    (`decode_encode_value` below). -/
+theorem decode_encode (s : Bool) (m : Nat) (e : Int) (t p : Nat) (ind : Flag) (sep : Nat) (ht : t ≤ 2)
+    (hsep : sep = 0 ∨ sep = 58) (hind : ind ≠ Flag.num) :
+    let h := encodeHead (.fin s m e) t p ind
+    ∃ D M S F : Bytes, AllDigits D ∧ AllDigits M ∧ AllDigits S ∧ AllDigits F ∧ D ≠ [] ∧ M ≠ [] ∧ S ≠ [] ∧
+      F.length = clampPrec t p ∧
+      digitsVal 0 D = (encFields h t).1 ∧ digitsVal 0 M = (encFields h t).2.1 ∧ digitsVal 0 S = (encFields h t).2.2.1 ∧
+      digitsVal 0 F = (encFields h t).2.2.2 ∧
+      ∀ v, evalSlots (readNeg ind h.neg) (slotsOf t D M S F) = .ok v →
+        decode (encode (.fin s m e) t p ind sep) = .ok (F64.add F64.nzero v, readFlag ind) := by
+  intro h
+  obtain ⟨D, M, S, F, hD, hM, hS, hF, nD, nM, nS, hl, v1, v2, v3, v4, henc⟩ := encode_shape s m e t p ind sep ht
+  refine ⟨D, M, S, F, hD, hM, hS, hF, nD, nM, nS, hl, v1, v2, v3, v4, fun v hv => ?_⟩
+  rw [henc]
+  exact decode_layout t sep D M S F ind h.neg v ht hsep hind hD hM hS hF nD nM nS hv
+
+/-- the same for any text of the grammar with the encoder's sign / letter layout (not only encoder outputs) -/
+theorem grammar_decodes (t sep : Nat) (D M S F : Bytes) (ind : Flag) (neg : Bool) (v : F64) (ht : t ≤ 2)
+    (hsep : sep = 0 ∨ sep = 58) (hind : ind ≠ Flag.num)
+    (hD : AllDigits D) (hM : AllDigits M) (hS : AllDigits S) (hF : AllDigits F) (nD : D ≠ []) (nM : M ≠ []) (nS : S ≠ [])
+    (hv : evalSlots (readNeg ind neg) (slotsOf t D M S F) = .ok v) :
+    decode (sgnText ind neg ++ dmsText t sep D M S F ++ hemiText ind neg) = .ok (F64.add F64.nzero v, readFlag ind) :=
+  decode_layout t sep D M S F ind neg v ht hsep hind hD hM hS hF nD nM nS hv
+
+-- non-vacuity: concrete encoder outputs and their decoding (the model is executable)
+example : encode (F64.fin true 81 (-2)) 2 1 Flag.lat 0 = strBytes "20d15'00.0\"S" := by decide +kernel
+example : (decode (strBytes "20d15'00.0\"S")).toOption.map (·.2) = some Flag.lat := by decide +kernel
+
 /-! ## hemisphere and sign rules -/
 
 /-- flag bookkeeping of `DecodeLatLon`, complete case table: without letters the order is decided by `longfirst`; one
@@ -362,11 +439,219 @@ theorem azimuth_no_latitude (s : Bytes) (v : F64) (h : decodeAzimuth s = .ok v) 
 /-! ## malformed input: NUL bytes, and the splitting of sums -/
 
 /-- **NUL is rejected** (component loop, all strings, any position, any fuel): a component text containing a NUL byte
-    is never accepted.  `…_partial`: the full statement "`decode s` is an error whenever `0 ∈ s`" also needs that
-    `replaceAll`, `trim`, `pieces` and `strip` keep the NUL and that `nummatch` does not match it; those steps are
-    covered by the exact correspondence on the NUL-containing mutation / random streams, not by a theorem. -/
+    is never accepted.  (Kept under its first-round name; the full statement "`decode s` is an error whenever `0 ∈ s`"
+    is `decode_nul_rejected` below.) -/
 theorem nul_rejected_partial (f np : Nat) (sl : Slots) (s : Bytes) (h : 0 ∈ s) : ∃ e, comps f np sl s = .error e :=
   comps_nul f np sl s h
+
+/-- **`decode_nul_rejected`: `Decode` rejects every string that contains a NUL byte** (finding F6, the full statement):
+    the substitution table (no pattern contains a NUL), trimming, the splitting at signs and the hemisphere / sign
+    stripping all keep the NUL inside some piece, the component loop rejects it (`nul_rejected_partial`) and the
+    `nan` / `inf` spellings of `Utility::nummatch` do not contain it. -/
+theorem decode_nul_rejected (s : Bytes) (h : 0 ∈ s) : ∃ e, decode s = .error e := decode_nul s h
+
+/-- the steps: each stage keeps a NUL byte -/
+theorem nul_survives_stages (s : Bytes) (h : 0 ∈ s) :
+    0 ∈ replaceAll s ∧ 0 ∈ trim s ∧ (∃ p ∈ pieces (s.length + 1) true s, 0 ∈ p) ∧ nummatch s = none ∧
+    (∀ st, strip s = .ok st → 0 ∈ st.body) :=
+  ⟨replaceAll_keeps_nul s h, trim_keeps_nul s h, pieces_keep_nul s h, nummatch_nul s h, fun _ hs => strip_keeps_nul hs h⟩
+
+example : (decode [49, 0, 50]).toOption.isNone = true := by decide +kernel
+
+/-! ## sums of signed pieces -/
+
+/-- **splitting at signs**: a first piece `[letter][sign]text` and later pieces `sign text` (texts free of `+ -`) are
+    exactly what `Decode` hands to `InternalDecode` -/
+theorem pieces_at_signs (p1 : Bytes) (rest : List Bytes) (h1 : FirstPiece p1) (hr : ∀ p ∈ rest, LaterPiece p)
+    (fuel : Nat) (hf : (p1 :: rest).flatten.length ≤ fuel) : pieces fuel true (p1 :: rest).flatten = p1 :: rest :=
+  pieces_split p1 rest h1 hr fuel hf
+
+/-- **`decode_sum`: a string of signed pieces decodes to the left-to-right binary64 sum `((-0 + x₁) + x₂) + …` of the
+    values of its pieces** (each addition correctly rounded: `F64.add`), with the hemisphere flags combined
+    (`foldFlags`: equal or absent, otherwise an error); an error in any piece is an error of the whole.  Stated for plain
+    text (`replaceAll` and `trim` are the identity on it; for texts over the plain alphabet see `replaceAll_noop`). -/
+theorem decode_sum (p1 : Bytes) (rest : List Bytes) (h1 : FirstPiece p1) (hr : ∀ p ∈ rest, LaterPiece p)
+    (hrep : replaceAll (p1 :: rest).flatten = (p1 :: rest).flatten)
+    (htrim : trim (p1 :: rest).flatten = (p1 :: rest).flatten)
+    (xs : List (F64 × Flag)) (hx : (p1 :: rest).map internalDecode = xs.map Except.ok) :
+    decode (p1 :: rest).flatten =
+      match foldFlags (xs.map (·.2)) Flag.none with
+      | .error e => .error e
+      | .ok f => .ok ((xs.map (·.1)).foldl F64.add F64.nzero, f) :=
+  decode_sum_value p1 rest h1 hr hrep htrim xs hx
+
+/-- … and before evaluating the pieces: `Decode` is `sumPieces` over exactly those pieces -/
+theorem decode_sum_pieces (p1 : Bytes) (rest : List Bytes) (h1 : FirstPiece p1) (hr : ∀ p ∈ rest, LaterPiece p)
+    (hrep : replaceAll (p1 :: rest).flatten = (p1 :: rest).flatten)
+    (htrim : trim (p1 :: rest).flatten = (p1 :: rest).flatten) :
+    decode (p1 :: rest).flatten = sumPieces (p1 :: rest) F64.nzero Flag.none :=
+  DMSProofs.decode_sum p1 rest h1 hr hrep htrim
+
+/-- an error in any piece is an error of the sum -/
+theorem sum_error (ps : List Bytes) (h : ∃ p ∈ ps, ∃ e, internalDecode p = .error e) (v : F64) (ind : Flag) :
+    ∃ e, sumPieces ps v ind = .error e := sumPieces_error_of_mem ps h v ind
+
+-- non-vacuity: `S3-2.5+4.1N` satisfies the hypotheses
+example : FirstPiece (strBytes "S3") ∧ ∀ p ∈ [strBytes "-2.5", strBytes "+4.1N"], LaterPiece p := ⟨example_first, example_later⟩
+
+/-- the substitution table and trimming leave plain text alone (no `*`, grave accent, high-bit byte; at most one `'`;
+    no white space) -/
+theorem plain_text_untouched (s : Bytes) (hA : ∀ c ∈ s, c < 128 ∧ c ≠ 42 ∧ c ≠ 96 ∧ isspace c = false) (h39 : s.count 39 ≤ 1) :
+    replaceAll s = s ∧ trim s = s :=
+  ⟨replaceAll_noop s (fun c hc => ⟨(hA c hc).1, (hA c hc).2.1, (hA c hc).2.2.1⟩) h39, trim_noop s (fun c hc => (hA c hc).2.2.2)⟩
+
+/-! ## hemisphere letter and sign rules of `InternalDecode` (all strings) -/
+
+/-- a hemisphere letter at both ends is an error ("Repeated or contradictory hemisphere indicators") -/
+theorem hemisphere_repeated (a b : Nat) (mid : Bytes) (ha : isHemi a = true) (hb : isHemi b = true) :
+    ∃ e, strip (a :: (mid ++ [b])) = .error e := strip_two_hemispheres a b mid ha hb
+
+/-- a sign directly after a leading hemisphere letter is accepted and multiplies the letter's sign -/
+theorem sign_after_hemisphere (hemi sg : Nat) (body : Bytes) (hh : isHemi hemi = true) (hs : isSign sg = true)
+    (hne : body ≠ []) (hlast : ∀ c ∈ body.getLast?, isHemi c = false) :
+    strip (hemi :: sg :: body) =
+      .ok ⟨(if lookup DMSC.signs sg = 0 then !hemiNeg (lookup DMSC.hemispheres hemi) else hemiNeg (lookup DMSC.hemispheres hemi)),
+           hemiFlag (lookup DMSC.hemispheres hemi), body⟩ :=
+  strip_sign_after_leading_hemi hemi sg body hh hs hne hlast
+
+/-- … likewise a leading sign with a trailing letter -/
+theorem sign_with_trailing_hemisphere (sg hemi : Nat) (body : Bytes) (hs : isSign sg = true) (hh : isHemi hemi = true)
+    (hne : body ≠ []) :
+    strip (sg :: (body ++ [hemi])) =
+      .ok ⟨(if lookup DMSC.signs sg = 0 then !hemiNeg (lookup DMSC.hemispheres hemi) else hemiNeg (lookup DMSC.hemispheres hemi)),
+           hemiFlag (lookup DMSC.hemispheres hemi), body⟩ :=
+  strip_sign_with_trailing_hemi sg hemi body hs hh hne
+
+/-- only one sign is removed: a second one is an "Internal sign" error of the piece -/
+theorem internal_sign_rejected (body : Bytes) (hne : body ≠ []) (hlast : ∀ c ∈ body.getLast?, isHemi c = false) :
+    internalDecode (45 :: 45 :: body) = .error "Internal sign" := internalDecode_double_sign body hne hlast
+
+/-! ## `Utility::val (Utility::str x p)` -/
+
+/-- non-finite values round-trip through their spellings, at every precision -/
+theorem str_val_nonfinite (p : Nat) :
+    (match utilVal (utilStr .nan p) with | .ok .nan => true | _ => false) = true ∧
+    (match utilVal (utilStr (.inf false) p) with | .ok (.inf false) => true | _ => false) = true ∧
+    (match utilVal (utilStr (.inf true) p) with | .ok (.inf true) => true | _ => false) = true := by
+  have h1 : utilStr .nan p = strBytes "nan" := rfl
+  have h2 : utilStr (.inf false) p = strBytes "inf" := rfl
+  have h3 : utilStr (.inf true) p = strBytes "-inf" := rfl
+  rw [h1, h2, h3]
+  decide +kernel
+
+/-- **`val` reads back exactly what `str` printed** (finite `x`, every precision `p`): the text is `[-]I[.F]` with
+    `p` decimals (`fmtFixed_shape`), has no white space, and the stream-extraction model returns the correctly rounded
+    (`ofDecExp` = strtod) value of `N / 10^p`, `N = fixedUnits x p` = `|x|·10^p` rounded half-even to an integer, with the
+    sign of `x`.  So `val (str x p)` differs from `x` by the half unit of `fixedUnits` plus one rounding
+    (`str_val_roundtrip` below for the bound). -/
+theorem str_val_reads_units (s : Bool) (m : Nat) (e : Int) (p : Nat) :
+    trim (utilStr (.fin s m e) p) = utilStr (.fin s m e) p ∧
+    valPlain (utilStr (.fin s m e) p) =
+      (match ofDecExp (fixedUnits (.fin s m e) p) (0 - (p : Int)) with
+       | .inf _ => none
+       | v => some (if s then F64.neg v else v)) :=
+  ⟨trim_noop _ (fmtFixed_nospace _ p), valPlain_fmtFixed s m e p⟩
+
+/-! ## the round-trip bounds (rational error bounds over the exact binary64 model, `IsRN` rounding theory) -/
+
+/-- **the one rounding of `%.*f`**: the printed count of units `fixedUnits x p` is within half a unit of `|x|·10^p` -/
+theorem fixedUnits_half_unit (s : Bool) (m : ℕ) (e : ℤ) (p : ℕ) :
+    |((fixedUnits (F64.fin s m e) p : ℕ) : ℚ) - |(F64.fin s m e).val| * 10 ^ p| ≤ 1 / 2 := fixedUnits_half s m e p
+
+/-- **`encode_value_bound`: what `encodeHead` does, with constants.**  For every binary64 value `x` (finite,
+    representable, below the overflow threshold), trailing unit `t` (scale `sc` = 1, 60, 3600), requested precision
+    `prec` (effective `P = clampPrec t prec`) and flag other than AZIMUTH: the sign is the sign bit of `x`; the whole
+    degrees `⌊|x|⌋` are split off exactly (0 for DEGREE) and the fractional part `|x| − ⌊|x|⌋` is computed exactly; it is
+    multiplied by `sc` with ONE binary64 rounding and printed with ONE decimal rounding (`fixedUnits`, half-even) to
+    `units` counts of `10^-P` trailing units.  Hence the printed value `idegree + units/(sc·10^P)` is within
+    `½·10^-P/sc + 2^-53` of `|x|` (for DEGREE without the `2^-53`: `encodeHead_bound_deg`). -/
+theorem encode_value_bound (s : Bool) (m : ℕ) (e : ℤ) (hx : F64.IsRep (F64.fin s m e))
+    (hb : |(F64.fin s m e).val| < (2:ℚ) ^ (1024:ℤ))
+    (trailing prec : ℕ) (ht : trailing = 0 ∨ trailing = 1 ∨ trailing = 2) (ind : Flag) (hind : ind ≠ Flag.azi) :
+    let x := F64.fin s m e
+    let h := encodeHead x trailing prec ind
+    let P := clampPrec trailing prec
+    let sc : ℚ := scaleOf trailing
+    h.neg = s ∧ h.prec = P ∧
+    h.idegree.isFinite = true ∧ h.idegree.signbit = false ∧
+    h.idegree.val = (if trailing = 0 then 0 else ((⌊|x.val|⌋ : ℤ) : ℚ)) ∧
+    |(h.idegree.val + (h.units : ℚ) / (sc * 10 ^ P) - |x.val|)| ≤ (1 / 2) / (sc * 10 ^ P) + (2:ℚ) ^ (-(53:ℤ)) :=
+  encodeHead_bound s m e hx hb trailing prec ht ind hind
+
+/-- the rounded count can reach but not exceed one whole degree (so the carry into the degrees is 0 or 1 and minutes,
+    seconds < 60 after the carry, `encode_normalised_*`) -/
+theorem encode_units_le_degree (s : Bool) (m : ℕ) (e : ℤ) (hx : F64.IsRep (F64.fin s m e))
+    (trailing prec : ℕ) (ht : trailing = 1 ∨ trailing = 2) (ind : Flag) (hind : ind ≠ Flag.azi) :
+    ((encodeHead (F64.fin s m e) trailing prec ind).units : ℚ) ≤ (scaleOf trailing : ℚ) * 10 ^ clampPrec trailing prec :=
+  (encodeHead_bound_ms s m e hx trailing prec ht ind hind).2.2.2.2.2.2
+
+/-- **the decoder side**: for slots with degrees `< 2^41`, minutes and seconds `< 60`, at most 15 fraction digits and a
+    point only in the last non-zero component, the numeric stage of `Decode` succeeds and returns a binary64 within
+    `4·2^-53·V` of `±V`, `V = d + m/60 + s/3600` the exact rational value of the fields (integer parts are accumulated
+    exactly, `strtod` is one correct rounding, the sum and the division one each) -/
+theorem decode_value_bound (neg : Bool) (sl : Slots)
+    (hD : sl.d.int < 2 ^ 41) (hM : sl.m.int < 60) (hS : sl.s.int < 60)
+    (hd : NumOK sl.d) (hm : NumOK sl.m) (hs : NumOK sl.s)
+    (hlast_s : numVal sl.s ≠ 0 → sl.d.point = false ∧ sl.m.point = false)
+    (hlast_m : numVal sl.m ≠ 0 → sl.d.point = false) :
+    let V : ℚ := numVal sl.d + numVal sl.m / 60 + numVal sl.s / 3600
+    ∃ v : F64, evalSlots neg sl = .ok v ∧ F64.IsRep v ∧ |v.val| ≤ 2 ^ 53 ∧
+      |v.val - (if neg then -V else V)| ≤ 4 * (2:ℚ) ^ (-(53:ℤ)) * V :=
+  evalSlots_bound neg sl hD hM hS hd hm hs hlast_s hlast_m
+
+/-- **`roundtrip_bound`**: for every binary64 value `x` with `|x| < 2^40`, trailing DEGREE / MINUTE / SECOND, every
+    precision, flag NONE / LATITUDE / LONGITUDE and separator none or `:`:
+    `Decode (Encode x …)` succeeds with the flag of the hemisphere class and a finite value `y` with
+
+      `|y − x| ≤ B + 4·2^-53·(|x| + B)`,   `B = ½·10^-P/sc + 2^-53`,  `P = clampPrec t p`, `sc = 1, 60, 3600`
+
+    (`rtBound`): half a unit of the last printed digit, the one binary rounding of the scaling in `Encode`, and the
+    three roundings of `Decode`.  AZIMUTH: `roundtrip_bound_azimuth` (all `x`, with respect to the reduced angle).  The
+    degrees are limited to `2^40` (beyond `2^53` the statement is false for the code as it is: finding F33, digit-by-digit
+    accumulation of the integer part). -/
+theorem roundtrip_bound (s : Bool) (m : ℕ) (e : ℤ) (hx : F64.IsRep (F64.fin s m e)) (hb : |(F64.fin s m e).val| < 2 ^ 40)
+    (t p : ℕ) (ht : t ≤ 2) (ind : Flag) (hind : ind = Flag.none ∨ ind = Flag.lat ∨ ind = Flag.lon) (sep : ℕ)
+    (hsep : sep = 0 ∨ sep = 58) :
+    ∃ y : F64, decode (encode (F64.fin s m e) t p ind sep) = .ok (y, readFlag ind) ∧ y.isFinite = true ∧
+      |(y.val - (F64.fin s m e).val)| ≤
+        ((1 / 2) / ((scaleOf t : ℚ) * 10 ^ clampPrec t p) + (2:ℚ) ^ (-(53:ℤ))) +
+          4 * (2:ℚ) ^ (-(53:ℤ)) * (|(F64.fin s m e).val| + ((1 / 2) / ((scaleOf t : ℚ) * 10 ^ clampPrec t p) + (2:ℚ) ^ (-(53:ℤ)))) :=
+  roundtrip_all s m e hx hb t p ht ind hind sep hsep
+
+/-- **`roundtrip_bound_azimuth`**: with the AZIMUTH flag `Encode` prints the reduced angle
+    `x′ = aziReduce x` — `a = AngNormalize x` (exact, `≡ x mod 360`, `|a| ≤ 180`: C16 `angNormalize_spec`), then `a + 360`
+    (one binary64 rounding) if `a < 0`, else `0 + a = a`; `x′` is a binary64 value in `[0, 512]` (in fact `[0, 360]`) —
+    and `Decode (Encode x … AZIMUTH)` succeeds with flag NONE and a value within the same bound `rtBound` of `x′`,
+    for EVERY binary64 `x`. -/
+theorem roundtrip_bound_azimuth (s : Bool) (m : ℕ) (e : ℤ) (hx : F64.IsRep (F64.fin s m e)) (t p : ℕ) (ht : t ≤ 2) (sep : ℕ)
+    (hsep : sep = 0 ∨ sep = 58) :
+    (F64.IsRep (aziReduce (F64.fin s m e)) ∧ 0 ≤ (aziReduce (F64.fin s m e)).val ∧ (aziReduce (F64.fin s m e)).val ≤ 512 ∧
+      ((MathF.angNormalize (F64.fin s m e)).val < 0 →
+        RN ((MathF.angNormalize (F64.fin s m e)).val + 360) (aziReduce (F64.fin s m e)).val) ∧
+      (0 ≤ (MathF.angNormalize (F64.fin s m e)).val →
+        (aziReduce (F64.fin s m e)).val = (MathF.angNormalize (F64.fin s m e)).val)) ∧
+    ∃ y : F64, decode (encode (F64.fin s m e) t p Flag.azi sep) = .ok (y, Flag.none) ∧ y.isFinite = true ∧
+      |(y.val - (aziReduce (F64.fin s m e)).val)| ≤
+        ((1 / 2) / ((scaleOf t : ℚ) * 10 ^ clampPrec t p) + (2:ℚ) ^ (-(53:ℤ))) +
+          4 * (2:ℚ) ^ (-(53:ℤ)) * ((aziReduce (F64.fin s m e)).val + ((1 / 2) / ((scaleOf t : ℚ) * 10 ^ clampPrec t p) + (2:ℚ) ^ (-(53:ℤ)))) :=
+  ⟨aziReduce_spec s m e hx, roundtrip_azimuth s m e hx t p ht sep hsep⟩
+
+/-- the head of `Encode` for AZIMUTH is the head for NONE on the reduced angle -/
+theorem encode_azimuth_head (x : F64) (t p : ℕ) : encodeHead x t p Flag.azi = encodeHead (aziReduce x) t p Flag.none :=
+  encodeHead_azi x t p
+
+-- non-vacuity: 10.5 is a binary64 value below 2^40
+example : F64.IsRep (F64.fin false 21 (-1)) ∧ |(F64.fin false 21 (-1)).val| < 2 ^ 40 := by
+  refine ⟨⟨rfl, 21, -1, by norm_num, by norm_num, by rw [F64.val_fin]; simp⟩, ?_⟩
+  rw [F64.val_fin]; norm_num
+
+/-- **`str_val_roundtrip`** (finite values): for `|x| ≤ 2^52` and precision `p ≤ 30`, `Utility::val (Utility::str x p)`
+    succeeds with a finite `y`, `|y − x| ≤ ½·10^-p + 2^-53·(|x| + 1)` (the decimal rounding of `str`, the binary rounding
+    of `strtod`).  Non-finite values: `str_val_nonfinite`. -/
+theorem str_val_roundtrip (s : Bool) (m : ℕ) (e : ℤ) (hb : |(F64.fin s m e).val| ≤ 2 ^ 52) (p : ℕ) (hp : p ≤ 30) :
+    ∃ y : F64, utilVal (utilStr (F64.fin s m e) p) = .ok y ∧ y.isFinite = true ∧
+      |(y.val - (F64.fin s m e).val)| ≤ (1 / 2) / 10 ^ p + (2:ℚ) ^ (-(53:ℤ)) * (|(F64.fin s m e).val| + 1) :=
+  utilVal_utilStr s m e hb p hp
 
 /-- none of the substitution patterns contains a NUL, and none replaces by a digit, point or letter: the table can only
     produce `d ' " + -` or delete (Gen-obligation) -/
